@@ -170,6 +170,11 @@ def render_feature(shape, fidx=0, markers=False, indent="  ", blank=0, step_kw=(
                     x.marker = "m_" + xid if markers else None
                     emit(ind + indent * 2 + "| x |")
                     for r in range(ex["rows"]):
+                        if blank:
+                            # filler lines INSIDE the table (the parser skips comments and blank lines between rows)
+                            emit(ind + indent * 2 + "# row %d follows" % r)
+                            if r:
+                                emit("")
                         rid = "%s.r%d" % (xid, r)
                         # column placeholder <x> and the builder's own placeholders for the row
                         rtags = [t.replace("<x>", str(r)).replace("<row.index>", str(r + 1)).replace("<examples.index>", str(j + 1))
